@@ -12,6 +12,9 @@ _uid = itertools.count(1)
 # bits
 
 
+_interned = {}
+
+
 def bdeps(b):
     if b == 0 or b == 1:
         return frozenset()
@@ -25,7 +28,12 @@ def bdep(*bs, extra=frozenset()):
     for b in bs:
         s |= bdeps(b)
     # the third component identifies the value instance: two 'd' bits are the same value iff same uid
-    return ("d", frozenset(s), next(_uid))
+    fs = frozenset(s)
+    # the 16/64 bits of one value usually carry the same dependence set: share one object
+    fs = _interned.setdefault(fs, fs)
+    if len(_interned) > 200000:
+        _interned.clear()
+    return ("d", fs, next(_uid))
 
 
 def bnot(b):
